@@ -117,10 +117,13 @@ package node
 //@   requires @status statusInv(Lexec, Lrel, Lhist)
 //@   requires @burn_parses validFA(GlobalBurnAddress)
 //@   modifies Lbal, Lsupply, Lrel, Lexec, LtoAmt, Lhist, Lhold
+//@   requires @held_have_history holdInv(Lhold, Lhist)
 //@   ensures @status err == nil ==> statusInv(Lexec, Lrel, Lhist)
 //@   ensures @never_negative err == nil ==> balNonNeg(Lbal)
+//@   ensures @held_have_history err == nil ==> holdInv(Lhold, Lhist)
 //@   loop 1 invariant @status statusInv(Lexec, Lrel, Lhist)
 //@   loop 1 invariant @nonneg balNonNeg(Lbal)
+//@   loop 1 invariant @held_have_history holdInv(Lhold, Lhist)
 //@   loop 1 preserves old
 //@
 //@ // ---- conversions in holding (C06 C07 C13 C16 C17) ----------------------------------------------
@@ -304,17 +307,18 @@ package node
 //@   props C02 C07 C10 C12 C14 C15
 //@   requires @wellformed d.Pegnet != nil && d.Sync != nil && height > 0 && height == d.Sync.Synced + 1 && height <= 2147483647
 //@   requires @activations activationsOrdered() && config.V204EnhanceActivation != config.V204BurnMintedTokenActivation
-//@   requires @nonneg balNonNeg(Lbal)
+//@   requires @nonneg{C10} balNonNeg(Lbal)
 //@   requires @status statusInv(Lexec, Lrel, Lhist) && holdInv(Lhold, Lhist)
 //@   requires @held_in_window_unexecuted heldUnexecuted(Lhold, Lrel, Lrated, height)
 //@   requires @burn_parses validFA(GlobalBurnAddress)
-//@   modifies *
+//@   modifies Lbal, Lsupply, Lrel, Lexec, LtoAmt, Lrefund, Lhist, Lhold, Lrated, Lrate, LbankPresent, LbankAmt, LbankUsed, LbankReq, d.LastAveragesData, d.LastAverages, d.LastAveragesHeight
 //@   let devDue = height >= config.V20DevRewardsHeightActivation && height % 144 == 0
 //@   // no block is reported as applied with an ignored failure: the ledger invariants hold whenever nil is returned
 //@   ensures @never_negative{C10} err == nil ==> balNonNeg(Lbal)
 //@   ensures @status{C10} err == nil ==> statusInv(Lexec, Lrel, Lhist)
 //@   ensures @never_negative_when_no_dev_payout_due err == nil && !devDue ==> balNonNeg(Lbal)
 //@   ensures @status_when_no_dev_payout_due err == nil && !devDue ==> statusInv(Lexec, Lrel, Lhist)
+//@   ensures @held_have_history err == nil ==> holdInv(Lhold, Lhist)
 //@   // gating of the scheduled steps (each at most once, at exactly its heights)
 //@   ensures @mint_iff err == nil ==> ((calls("MintTokensForBalance") == old(calls("MintTokensForBalance")) + 1) <==> height == config.V204EnhanceActivation) && calls("MintTokensForBalance") <= old(calls("MintTokensForBalance")) + 1
 //@   ensures @nullify_mint_iff err == nil ==> ((calls("NullifyMintedTokens") == old(calls("NullifyMintedTokens")) + 1) <==> height == config.V204BurnMintedTokenActivation) && calls("NullifyMintedTokens") <= old(calls("NullifyMintedTokens")) + 1
@@ -333,3 +337,20 @@ package node
 //@ // the holders' snapshot is taken before any balance change of the block (C14)
 //@ site-requires (*Pegnetd).SyncBlock | (*Pegnetd).SnapshotPayouts | 1
 //@   requires @snapshot_before_balance_changes calls("ApplyTransactionBatchesInHolding") == old(calls("ApplyTransactionBatchesInHolding")) && calls("ApplyTransactionBlock") == old(calls("ApplyTransactionBlock")) && calls("ApplyGradedOPRBlock") == old(calls("ApplyGradedOPRBlock")) && calls("ApplyGradedSPRBlock") == old(calls("ApplyGradedSPRBlock")) && calls("DevelopersPayouts") == old(calls("DevelopersPayouts")) && calls("ApplyFactoidBlock") == old(calls("ApplyFactoidBlock"))
+//@
+//@ // ---- the sync loop (C02 C10) ---------------------------------------------------------------------
+//@ func (*Pegnetd).NullifyBurnAddress
+//@   trusted
+//@   modifies Lbal, Lsupply
+//@   ensures !isRejectErr(result)
+//@   ensures result == nil ==> balNonNeg(Lbal)
+//@
+//@ func (*Pegnetd).DBlockSync
+//@   props C02 C10
+//@   nopanic off
+//@   requires @wellformed d.Pegnet != nil && d.Sync != nil && d.Config != nil && d.Pegnet.DB != nil
+//@   requires @resumes_from_persisted_height d.Sync.Synced == Csynced
+//@   requires @activations activationsOrdered() && config.V204EnhanceActivation != config.V204BurnMintedTokenActivation && validFA(GlobalBurnAddress)
+//@   modifies *
+//@   loop 1 invariant @in_memory_height_is_committed_height d.Sync != nil && d.Pegnet != nil && d.Pegnet.DB != nil && d.Sync.Synced == Csynced
+//@   loop 2 invariant @in_memory_height_is_committed_height d.Sync != nil && d.Pegnet != nil && d.Pegnet.DB != nil && d.Sync.Synced == Csynced && heights != nil && heights.DirectoryBlock <= 2147483647
